@@ -58,10 +58,10 @@ Next ==
        IF r.op = "init" THEN /\ E' = E0 /\ dead' = FALSE /\ bad' = bad /\ st' = [st EXCEPT !.recs = @ + 1, !.hists = @ + 1]
        ELSE IF dead THEN UNCHANGED <<E, dead, bad>> /\ st' = [st EXCEPT !.recs = @ + 1]
        ELSE \E rule \in {IF r.panic # "" THEN "NoPanic" ELSE IF r.op = "query" THEN QRule(E, r) ELSE ""} :
-            /\ E' = Apply(E, r)
+            /\ E' = IF r.panic # "" THEN E ELSE Apply(E, r)        \* a record of a panicking call carries no getters
             /\ dead' = (rule # "")
             /\ bad' = IF rule = "" THEN bad ELSE Append(bad, [h |-> r.h, i |-> r.i, rule |-> rule, op |-> r.op])
-            /\ st' = IF r.op # "query" THEN [st EXCEPT !.recs = @ + 1]
+            /\ st' = IF r.op # "query" \/ r.panic # "" THEN [st EXCEPT !.recs = @ + 1]
                      ELSE [st EXCEPT !.recs = @ + 1, !.queries = @ + 1,
                                      !.steady = @ + (IF E.segs # <<>> /\ Steady(E.segs) /\ Eq(r.t, E.lastT) THEN 1 ELSE 0),
                                      !.stalls = @ + (IF E.hasQ THEN 1 ELSE 0),
